@@ -125,6 +125,8 @@ function genOpExpr (rng, ctx, d, label, nested) {
       const sharedCtx = ['param-default:function', 'class-field:instance', 'param-default:function-expression-argument'].includes(label)
       return { t: 'fnarg', site: P.nextSite++, def: genOpExpr(rng, { ...ctx, f: { isGen: false, isAsync: false } }, 0, sharedCtx ? 'param-default:function' : 'param-default:function-expression-argument', true) }
     }
+    // a comma expression as an operand: something is evaluated and dropped, then an instrumented operation
+    if (d > 0 && rng.chance(1, 10)) return { t: 'seq', site: P.nextSite++, inner: genOpExpr(rng, ctx, d - 1, label, true) }
     if (d > 0 && rng.chance(1, 3)) return genOpExpr(rng, ctx, d - 1, label, true)
     if (f.isGen && rng.chance(1, 3)) return { t: 'yield', site: P.nextSite++ }
     if (f.isAsync && rng.chance(1, 3)) return { t: 'await', site: P.nextSite++ }
@@ -215,6 +217,7 @@ function render (P) {
       case 'optfn': return [[e.arg.site]]
       case 'alone': return cat(e.args.map(altsOf))
       case 'cond': return altsOf(e.cons).concat(altsOf(e.alt))
+      case 'seq': return altsOf(e.inner)
       case 'plus': case 'tpl': return cat(e.ops.map(altsOf))
       case 'call': return cat([altsOf(e.recv)].concat(e.args.map(altsOf)))
     }
@@ -245,6 +248,7 @@ function render (P) {
       case 'await': return `(await $.d(${A}, ${e.site}))`
       case 'fnarg': return `$.k(${A}, ${e.site}, function (a2, p = ${ex(e.def, 'a2')}) { return p; })`
       case 'cond': return `($.c(${A}, ${e.site}) ? ${ex(e.cons, A)} : ${ex(e.alt, A)})`
+      case 'seq': return `($.p(${A}, ${e.site}), ${ex(e.inner, A)})`
       case 'plus': {
         const parts = e.ops.map(o => ex(o, A))
         // nested `+` operands are flattened by the rewriter into one hook call: only the outermost
